@@ -2,7 +2,7 @@
    Only statements here; every proof is `exact <lemma>` into Proofs/.  All theorems hold for an arbitrary
    user-code oracle `body` (called with ORIGINAL parameter names) and output picker `pick`. *)
 From Verif Require Import Base.Prelude Base.StrOrd Base.StrUtil Base.Graph Model.Pipe Model.Rewrite Model.Alias
-  Proofs.GraphFacts Proofs.RewriteFacts Proofs.AliasFacts Proofs.NestFacts Proofs.C10Witness.
+  Proofs.GraphFacts Proofs.RewriteFacts Proofs.AliasFacts Proofs.NestFacts Proofs.SplitFacts Proofs.C10Witness.
 
 (* ---------- renaming ---------- *)
 (* rename_preserves: for a renaming that is one-to-one on the names involved, the renamed pipeline evaluates the
@@ -78,6 +78,33 @@ Theorem C10_join_preserves : forall body pick p q r kw S,
   forall fuel o, In o S -> neval body pick fuel r kw o = neval body pick fuel p kw o.
 Proof. exact join_preserves. Qed.
 Print Assumptions C10_join_preserves.
+
+(* split_preserves: the part of split_disconnected() that holds output o contains o's function, and every output
+   of that part evaluates exactly as in the whole pipeline (the connected components computed by the model are
+   closed under adjacency: component_closed) *)
+Theorem C10_split_preserves : forall body pick o p c kw,
+  split o p = Ok c ->
+  (forall n1 n2 x, In n1 p -> In n2 p -> In x (outs (nf n1)) -> In x (outs (nf n2)) -> n1 = n2) ->
+  (forall n, In n p -> outs (nf n) <> []) ->
+  (forall n k, In n p -> In k (akeys (dflt (nf n))) -> In k (pnames (nf n))) ->
+  (exists nd, In nd c /\ In o (outs (nf nd)))
+  /\ forall fuel o' nd, In nd c -> In o' (outs (nf nd)) ->
+       neval body pick fuel c kw o' = neval body pick fuel p kw o'.
+Proof. exact split_preserves. Qed.
+Print Assumptions C10_split_preserves.
+
+Example C10_example_split :
+  let p := lift [mkf (s "f") [s "a"] [(s "x", s "x")] [(s "x", s "d")] [] false;
+                 mkf (s "g") [s "b"] [(s "y", s "y")] [] [] false;
+                 mkf (s "h") [s "c"; s "e"] [(s "b", s "b"); (s "y", s "y")] [] [] false] in
+  exists c, split (s "c") p = Ok c /\ map nid c = [s "b"; s "c"]
+    /\ (forall n, In n p -> outs (nf n) <> [])
+    /\ (forall n k, In n p -> In k (akeys (dflt (nf n))) -> In k (pnames (nf n))).
+Proof.
+  cbv zeta. eexists. split; [vm_compute; reflexivity|]. split; [vm_compute; reflexivity|]. split.
+  - intros n [<-|[<-|[<-|[]]]]; discriminate.
+  - intros n k [<-|[<-|[<-|[]]]]; cbn; tauto.
+Qed.
 
 (* ---------- copy / pickle ---------- *)
 Theorem C10_copy_preserves : forall p, apply_op OCopy p = Ok p /\ apply_op OPickle p = Ok p.
